@@ -176,7 +176,12 @@ impl<'a> Interpreter<'a> {
 
         let count = self.depth.inc();
         #[cfg(rscel_verif)]
-        let _vg = crate::verif::FrameGuard::enter(count.count(), || prog.iter().cloned().collect());
+        let _vg = crate::verif::FrameGuard::enter(
+            count.count(),
+            self.cel.is_none() && self.bindings.is_none(),
+            || prog.iter().cloned().collect(),
+            |name| self.get_param_by_name(name).cloned(),
+        );
 
         if count.count() > 32 {
             return Err(CelError::runtime(MAX_DEPTH_MSG));
